@@ -80,13 +80,55 @@ def load_known():
     return [k for k in json.load(open(path)) if k.get("status") == "known"]
 
 
-def matches_known(prop, case, tb, known):
+def dataflow(lines):
+    """per line: (operand registers, defined register or None); per register: kind and the set of
+    known-finding sources it descends from. The only listed source: 'conv_B_of_T' (D1)."""
+    kinds, taint, per_line = [], [], []
+    for ln in lines:
+        t = ln.split()
+        ops, src = [], set()
+        if t[0] == "r":
+            ins = t[1]
+            if ins in ("expr", "parse"): k = "E"
+            elif ins == "op1": ops = [int(t[3])]; k = None
+            elif ins == "op2": ops = [int(t[4]), int(t[5])]; k = None
+            elif ins == "conv":
+                ops = [int(t[3])]; k = t[2]
+                if k == "B" and ops[0] < len(kinds) and kinds[ops[0]] == "T": src.add("conv_B_of_T")
+            elif ins in ("restrict", "exists", "forall", "deriv"): ops = [int(t[2])]; k = None
+            elif ins == "subst":
+                n = int(t[3]); ops = [int(t[2])] + [int(t[5 + 2 * i]) for i in range(n)]; k = None
+            elif ins in ("mkconst", "mkliteral"): k = t[2]
+            elif ins == "nary": n = int(t[3]); ops = [int(x) for x in t[4:4 + n]]; k = "E"
+            elif ins == "binary": ops = [int(t[3]), int(t[4])]; k = "E"
+            elif ins == "negate": ops = [int(t[2])]; k = "E"
+            elif ins == "csvin": k = "T"
+            else: k = "?"
+            ops = [o for o in ops if o < len(kinds)]
+            if k is None: k = kinds[ops[0]] if ops else "?"
+            for o in ops: src |= taint[o]
+            kinds.append(k); taint.append(src)
+            per_line.append((ops, len(kinds) - 1))
+        else:
+            q = t[1]
+            if q in ("equiv", "implied", "semeq"): ops = [int(t[2]), int(t[3])]
+            elif q in ("obs", "enum", "eval", "preds", "show", "csvout", "render"): ops = [int(t[2])]
+            per_line.append(([o for o in ops if o < len(kinds)], None))
+    return per_line, taint
+
+
+def known_for_line(prop, case, ln, known, cache={}):
+    """the listed known finding that explains a failure on line ln of the case, if any"""
+    key = id(case)
+    if key not in cache:
+        cache.clear(); cache[key] = dataflow(case["lines"])
+    per_line, taint = cache[key]
+    ops, defined = per_line[ln - 1]
+    srcs = set()
+    for o in ops: srcs |= taint[o]
+    if defined is not None: srcs |= taint[defined]
     for k in known:
-        if k["property"] != prop: continue
-        pat = k["match"]
-        text = "\n".join(case["lines"])
-        if all(re.search(p, text, flags=re.M) for p in pat.get("lines_all", [])) and \
-           any(key in pat.get("keys", [key]) for _, fs in tb for key, _ in fs):
+        if prop in k["properties"] and k["source"] in srcs:
             return k
     return None
 
@@ -145,22 +187,29 @@ def check(prop, tier, seed):
 
     results, impl, model, problems = run_cases(prop, cases) if okd else ([], {}, {}, [])
     known = load_known()
-    tierA = [(c, ta, tb) for c, ta, tb in results if ta]
-    tierB = [(c, ta, tb) for c, ta, tb in results if tb]
     known_hit = collections.Counter()
+    tierA, tierB = [], []
+    for c, ta, tb in results:
+        # failures on data that descends from a listed known finding are that finding, nothing new;
+        # the model only mirrors the defect there, so a correspondence mismatch on such data is ignored too
+        tb2, ta2 = [], []
+        for ln, fs in tb:
+            k = known_for_line(prop, c, ln, known)
+            if k: known_hit[k["id"] + " " + k["what"]] += 1
+            else: tb2.append((ln, fs))
+        for ln, ks in ta:
+            if not known_for_line(prop, c, ln, known): ta2.append((ln, ks))
+        if ta2: tierA.append((c, ta2, tb2))
+        if tb2: tierB.append((c, ta2, tb2))
     reported = 0
     for c, ta, tb in tierB:
-        k = matches_known(prop, c, tb, known)
-        if k:
-            known_hit[k["what"]] += 1
-            continue
         if reported < 5:
             path = write_replay(prop, "fail", c, ta, tb, impl, model)
             print("VIOLATION property=%s replay=%s" % (prop, path))
         reported += 1
         violations += 1
     for what, n in known_hit.items():
-        print("KNOWN-FINDING: property=%s %s (%d cases)" % (prop, what, n))
+        print("KNOWN-FINDING: property=%s %s (%d observations)" % (prop, what, n))
     if tierA and not tierB:
         # the code no longer does what the model says, and no generated case violates the property
         c, ta, tb = tierA[0]
